@@ -39,3 +39,6 @@ def run(ctx):
     base.run_correspondence(ctx, PROFILE, ctx.scale(500, 6000))
     scns = [TW.gen_c08(ctx.seed, i) for i in range(ctx.scale(300, 4000))]
     base.run_twin(ctx, "outputs_over_arms", scns)
+    # query batches of 2^k + 1 rows (block-wise dispatch must not lose the shape of a short tail block)
+    large = [TW.gen_c08_large(ctx.seed, i) for i in range(ctx.scale(12, 120))]
+    base.run_twin(ctx, "outputs_over_arms", large, shrink=False)
